@@ -190,8 +190,38 @@ def run(prop, tier, seed, known):
                     if a != label_at(x, xl, mid) or b != label_at(y, yl, mid):
                         fails.append('merge_labeled_intervals(%s, %s): piece [%s,%s] carries (%s,%s)' % (x, y, s, e, a, b))
                         break
+        # boundaries that are not multiples of 1e-5 (and pairs closer than 1e-5): the refinement keeps every input boundary exactly
+        import random as _random
+        rng = _random.Random(7)
+        for _ in range(60):
+            end = 3.0 + rng.choice([0.0, 0.000004, 0.1234567])
+            def off():
+                pts = sorted({round(rng.uniform(0.2, 2.8), 2) + rng.choice([0.0, 0.000004, 0.0000049, -0.000003, 0.1234567e-3]) for _ in range(rng.randint(0, 3))})
+                b = [0.0] + pts + [end]
+                return [[b[i], b[i + 1]] for i in range(len(b) - 1)]
+            x, y = off(), off()
+            if rng.random() < 0.3 and len(x) > 1:
+                y = [[0.0, x[0][1] + 0.000003]] + [[x[0][1] + 0.000003, end]]
+            n += 1
+            xl = ['x%d' % i for i in range(len(x))]
+            yl = ['y%d' % i for i in range(len(y))]
+            try:
+                out, oxl, oyl = util.merge_labeled_intervals(np.array(x), xl, np.array(y), yl)
+            except Exception as ex:
+                fails.append('merge_labeled_intervals raised %s on aligned annotations %s %s' % (type(ex).__name__, x, y))
+                continue
+            out = out.tolist()
+            bounds = sorted({p for r in x + y for p in r})
+            if out != [[a, b] for a, b in zip(bounds, bounds[1:])]:
+                fails.append('merge_labeled_intervals(%s, %s) = %s is not the common refinement (boundaries %s)' % (x, y, out, bounds))
+                continue
+            for (s_, e_), a, b in zip(out, oxl, oyl):
+                mid = (s_ + e_) / 2
+                if a != label_at(x, xl, mid) or b != label_at(y, yl, mid):
+                    fails.append('merge_labeled_intervals(%s, %s): piece [%s,%s] carries (%s,%s)' % (x, y, s_, e_, a, b))
+                    break
         bounded.append(dict(name='util.merge_labeled_intervals: common refinement, per-piece labels of both annotations, duration conserved, ValueError iff misaligned',
-                            bound='all pairs of %d contiguous annotations on the lattice' % len(contiguous), cases=n, exhaustive=True, failures=fails[:3],
+                            bound='all pairs of %d contiguous annotations on the lattice, plus 60 random pairs with boundaries off the 1e-5 grid' % len(contiguous), cases=n, exhaustive=True, failures=fails[:3],
                             wall_s=round(time.time() - t0, 2)))
         all_fails += fails
         # ---- interpolate_intervals / intervals_to_samples
